@@ -419,7 +419,7 @@ func main() {
 		}
 	})
 	// through the store
-	dir, _ := os.MkdirTemp("", "c14")
+	dir := r.TempDir("c14")
 	defer os.RemoveAll(dir)
 	cfg := ledger.Config{MinSteps: 20, MaxSteps: r.N(60, 150), Order: true}
 	r.Parallel("history", r.N(60, 1500), evid.Workers(), func(i int, cs int64) {
